@@ -169,7 +169,7 @@ def spec_namespace(module_ns, args, result=None, universe=None):
         "implies": lambda a, b: (not a) or bool(b), "iff": lambda a, b: bool(a) == bool(b), "forall": forall, "exists": exists,
         "result": lambda: result, "same": lambda a, b: a is b or a == b, "typed": lambda x, t: x, "isascii": lambda s: s.isascii(),
         "is_type": lambda x, t: True, "locked": lambda l: l.locked(), "key_of": nope, "held": nope, "owner_of": nope, "fresh": nope,
-        "events_len": nope, "event": nope, "ev": nope,
+        "events_len": nope, "event": nope, "ev": nope, "logged": nope,
     })
     ns.update(args)
     return ns
